@@ -4,7 +4,9 @@ observations); driver harness/cmd/vd-wallet.
   1. P-MC      : PropC43 on the wallet state machine (new/import/delete/setdefault/setlabel/chpw/reopen/convert over
                  2 accounts x 3 passwords x {default, low-security} scrypt parameter sets), exhaustive; plus the same
                  model with NewEnc="default" (what client.go does: F16), which TLC must REFUTE (the monitor bites).
-  2. P-EDGE    : every (state, call, args) edge of the bounded graph printed once by TLC and executed on a real
+  2. P-EDGE    : (incl. the fault edges: every saving call also with the wallet file made unwritable - it must fail and
+                 leave every account readable with its old password, live and after the next successful save + reopen)
+                 every (state, call, args) edge of the bounded graph printed once by TLC and executed on a real
                  account.ClientImpl with a wallet file under ctx.out (real scrypt, real key pairs of ECDSA/SM2/Ed25519):
                  per source state one real session replays the shared history and then all edges that leave the wallet
                  unchanged; every edge that changes it gets its own session.
@@ -38,7 +40,7 @@ def _judge(ctx, events, timeout):
 
 
 def _strip(ev):
-    return {k: ev[k] for k in ("op", "id", "p", "q", "res", "rid", "same", "ids")}
+    return {k: ev[k] for k in ("op", "id", "p", "q", "res", "rid", "same", "ids", "f")}
 
 
 def run(ctx):
